@@ -83,7 +83,7 @@ func randKey(r *rng.R, allowBytes bool) string {
 		if ty == "bytes" && !allowBytes {
 			ty = "str"
 		}
-		n := r.PickInt(0, 1, 3, 8, 17, 40)
+		n := r.PickInt(0, 1, 3, 8, 17, 40, 64, 65, 300, 4096)
 		b := make([]byte, n)
 		for i := range b {
 			b[i] = byte(r.Intn(256))
@@ -381,17 +381,17 @@ func genCase(r *rng.R, tier string, i int) corr.Case {
 	m := r.Range(20, 60)
 	cls := r.Intn(100)
 	switch {
-	case cls >= 100-14: // wide LRU against one plain LRU per shard (small per-shard capacity, colliding keys)
+	case cls >= 64 && cls < 76: // wide LRU against one plain LRU per shard (small per-shard capacity, colliding keys)
 		return genWideLRU(r, m)
-	case cls >= 100-28: // lock groups against one unsharded locker, all APIs mixed on the same keys
+	case cls >= 76 && cls < 92: // lock groups against one unsharded locker, all APIs mixed on the same keys
 		return genLocks(r, m)
-	case cls < 35: // routing of keys of every type
+	case cls < 25: // routing of keys of every type
 		lines := []string{fmt.Sprintf("remap %d", n)}
 		for j := 0; j < m; j++ {
 			lines = append(lines, r.Pick("simple", "simple", "xhash")+" "+randKey(r, true))
 		}
 		return corr.Case{Tag: "route-keys", Lines: lines}
-	case cls < 55: // the partition: boundaries and random hashes
+	case cls < 40: // the partition: boundaries and random hashes
 		lines := []string{fmt.Sprintf("remap %d", n)}
 		y := uint64(math.MaxUint64) / n
 		for j := 0; j < m; j++ {
@@ -411,7 +411,7 @@ func genCase(r *rng.R, tier string, i int) corr.Case {
 			lines = append(lines, fmt.Sprintf("search %d", x))
 		}
 		return corr.Case{Tag: "partition", Lines: lines}
-	case cls < 85: // sharded container against its unsharded twin
+	case cls < 56: // sharded container against its unsharded twin
 		kind := r.Pick("map", "map", "lru", "tlru")
 		cn := n
 		if cn > 4096 {
@@ -444,7 +444,7 @@ func genCase(r *rng.R, tier string, i int) corr.Case {
 			}
 		}
 		return corr.Case{Tag: "container-" + kind, Lines: lines}
-	case cls < 95: // key lockers and semaphore maps: acquire/release through the group on real keys
+	case cls < 64: // key lockers and semaphore maps: one key of ANY type (extremes included), acquire+release twice through the group
 		kind := r.Pick("klock", "semap", "tklock-i64", "tklock-str")
 		cn := n
 		if cn > 4096 {
@@ -461,7 +461,7 @@ func genCase(r *rng.R, tier string, i int) corr.Case {
 			}
 			lines = append(lines, r.Pick("lk", "rlk")+" "+k)
 		}
-		return corr.Case{Tag: "locks-" + kind, Lines: lines}
+		return corr.Case{Tag: "single-lock-" + kind, Lines: lines}
 	default:
 		lines := []string{fmt.Sprintf("remap %d", r.Range(0, 4))}
 		for j := 0; j < m/2; j++ {
